@@ -159,6 +159,25 @@ var ops = []op{
 	{"eval-avg", eval("avg($..price) + sum($.n) + length($.s)")},
 	{"eval-multi", eval("size($..*) + length($.*)")},
 	{"eval-first", eval("first($..*) == last($..*) || root(@) == @")},
+	// the random functions: their values differ from call to call by design, so only "a number in range, no error" is compared —
+	// the point is that whatever generator state they use is safe to step from several goroutines
+	{"eval-rand", func(r *ajson.Node) string {
+		out := "ok"
+		for i := 0; i < 3; i++ {
+			a, err := ajson.Eval(r, "rand(1)")
+			if err != nil || a.MustNumeric() < 0 || a.MustNumeric() >= 1 {
+				out = "bad-rand"
+			}
+			b, err := ajson.Eval(r, "randint(1000000)")
+			if err != nil || b.MustNumeric() < 0 || b.MustNumeric() >= 1000000 {
+				out = "bad-randint"
+			}
+			if _, err := r.JSONPath("$..[?(rand(1) < 2)]"); err != nil {
+				out = "bad-filter"
+			}
+		}
+		return out
+	}},
 	{"clone", func(r *ajson.Node) string {
 		var b strings.Builder
 		walk(r, func(n *ajson.Node) {
